@@ -3,6 +3,7 @@
 use serde_json::{Value, json};
 use std::io::{BufRead, Write};
 
+mod ops_layer;
 mod ops_parse;
 
 fn main() {
@@ -29,6 +30,7 @@ fn main() {
 fn dispatch(op: &str, req: &Value) -> Value {
     match op {
         "version" | "api" | "newtype" => ops_parse::run(op, req),
+        "layer-struct" => ops_layer::layer_struct(req),
         _ => json!({"error": format!("unknown op {op}")}),
     }
 }
